@@ -55,3 +55,18 @@ Theorem C01_cache_coherent :
     (forall b, (forall j tm, nth_error all j = Some tm -> ~ In b (t_edges _ tm)) -> snd st b = 0).
 Proof. exact cache_coherent. Qed.
 Print Assumptions C01_cache_coherent.
+
+(* every step of a run (psi and mu threaded, time-dependent links and boundary data): whenever the linear solver
+   returns solutions, the total current leaving every cell equals the injection through that step's boundary data *)
+Theorem C01_run_continuity :
+  forall (a : nat -> R) (n : nat) (es : list edgeR) (fixed : list nat) (solve : (nat -> R) -> nat -> R)
+         (expi : R -> RC) (repin : option RC) (gamma u : R),
+    (forall rhs r, (r < n)%nat -> applyR (lap_coo OpsR a es) (solve rhs) r = rhs r) ->
+    forall l psi mu k o i,
+      nth_error (run_steps OpsR a n es fixed solve repin expi gamma u psi mu l) k = Some (Some o) ->
+      nth_error l k = Some i ->
+      forall r, (r < n)%nat ->
+        applyR (div_coo OpsR a 0 es) (fun e => ob_Js _ (so_obs _ o) e + ob_Jn _ (so_obs _ o) e) r
+        = applyR (bflux_coo OpsR a 0 es) (si_muB _ i) r.
+Proof. exact run_continuity. Qed.
+Print Assumptions C01_run_continuity.
